@@ -29,11 +29,15 @@ CONSTANTS Xs, Ys,       \* coordinates of the lower-left corner
           Orders,       \* which corners the array names: "llur" "urll" "ullr" "lrul"
           Rotates,      \* values of /Rotate as written (any integer)
           Marks,        \* marker positions <<dx, dy>> relative to the lower-left corner
+          RForms,       \* how /Rotate is written: "int", or "real" (90.0 - not allowed by ISO 32000-1 table 30)
+          UserUnits,    \* /UserUnit values (1 = absent); nothing below reads it
+          Crops,        \* /CropBox: "absent", "inside", "outside" (reaching beyond the MediaBox), "inside-urll"
           Dev
 
 VARIABLES boxw, rraw, pt,                    \* input: MediaBox as written, Rotate as written, marker point
-          pc, mediabox, rotate, ctm, bbox, mpt, fired
-vars == <<boxw, rraw, pt, pc, mediabox, rotate, ctm, bbox, mpt, fired>>
+          rform, uu, cropw,                  \* input: spelling of Rotate, UserUnit, CropBox as written (<<>> = absent)
+          pc, mediabox, cropbox, rotate, ctm, bbox, mpt, fired
+vars == <<boxw, rraw, pt, rform, uu, cropw, pc, mediabox, cropbox, rotate, ctm, bbox, mpt, fired>>
 
 Written(x, y, w, h, o) ==
   CASE o = "llur" -> <<x, y, x + w, y + h>>
@@ -41,27 +45,44 @@ Written(x, y, w, h, o) ==
     [] o = "ullr" -> <<x, y + h, x + w, y>>
     [] o = "lrul" -> <<x + w, y, x, y + h>>
 
-Init == /\ \E x \in Xs, y \in Ys, w \in Ws, h \in Hs, o \in Orders, m \in Marks :
+CropWritten(x, y, w, h, c) ==
+  CASE c = "absent" -> <<>>
+    [] c = "inside" -> <<x, y, x + 1, y + 1>>
+    [] c = "inside-urll" -> <<x + 1, y + 1, x, y>>
+    [] c = "outside" -> <<x - 1, y, x + w + 1, y + 1>>
+
+Init == /\ \E x \in Xs, y \in Ys, w \in Ws, h \in Hs, o \in Orders, m \in Marks, c \in Crops :
              /\ boxw = Written(x, y, w, h, o)
              /\ pt = <<x + m[1], y + m[2]>>
-        /\ rraw \in Rotates
-        /\ pc = "box" /\ mediabox = <<>> /\ rotate = -1 /\ ctm = <<>> /\ bbox = <<>> /\ mpt = <<>> /\ fired = {}
+             /\ cropw = CropWritten(x, y, w, h, c)
+        /\ rraw \in Rotates /\ rform \in RForms /\ uu \in UserUnits
+        /\ pc = "box" /\ mediabox = <<>> /\ cropbox = <<>> /\ rotate = -1 /\ ctm = <<>> /\ bbox = <<>> /\ mpt = <<>> /\ fired = {}
 
-InSame == UNCHANGED <<boxw, rraw, pt>>
+InSame == UNCHANGED <<boxw, rraw, pt, rform, uu, cropw>>
 
 AParseBox ==
   /\ pc = "box"
   /\ IF "BoxAsWritten" \in Dev
        THEN mediabox' = boxw /\ fired' = IF boxw # Norm(boxw) THEN fired \cup {"BoxAsWritten"} ELSE fired
        ELSE mediabox' = Norm(boxw) /\ fired' = fired
-  /\ pc' = "rotate" /\ UNCHANGED <<rotate, ctm, bbox, mpt>> /\ InSame
+  /\ pc' = "crop" /\ UNCHANGED <<cropbox, rotate, ctm, bbox, mpt>> /\ InSame
 
+\* PDFPage._parse_cropbox: the MediaBox when absent; otherwise the array (normalised), as it is - not clipped
+AParseCrop ==
+  /\ pc = "crop"
+  /\ cropbox' = IF cropw = <<>> THEN mediabox ELSE IF "BoxAsWritten" \in Dev THEN cropw ELSE Norm(cropw)
+  /\ fired' = IF cropw # <<>> /\ Intersect(Norm(cropw), Norm(boxw)) # Norm(cropw) THEN fired \cup {"CropNotClipped"} ELSE fired
+  /\ pc' = "rotate" /\ UNCHANGED <<mediabox, rotate, ctm, bbox, mpt>> /\ InSame
+
+\* int_value(Rotate): a real number is not an int - 0 when not STRICT
 AParseRotate ==
   /\ pc = "rotate"
-  /\ rotate' = RotNorm(rraw)
-  /\ pc' = "ctm" /\ UNCHANGED <<mediabox, ctm, bbox, mpt, fired>> /\ InSame
+  /\ IF rform = "real" /\ "RealRotateIgnored" \in Dev
+       THEN rotate' = RotNorm(0) /\ fired' = IF RotNorm(rraw) # 0 THEN fired \cup {"RealRotateIgnored"} ELSE fired
+       ELSE rotate' = RotNorm(rraw) /\ fired' = fired
+  /\ pc' = "ctm" /\ UNCHANGED <<mediabox, cropbox, ctm, bbox, mpt>> /\ InSame
 
-SetCtm(m) == ctm' = m /\ pc' = "begin" /\ UNCHANGED <<mediabox, rotate, bbox, mpt, fired>> /\ InSame
+SetCtm(m) == ctm' = m /\ pc' = "begin" /\ UNCHANGED <<mediabox, cropbox, rotate, bbox, mpt, fired>> /\ InSame
 ACtm90   == pc = "ctm" /\ rotate = 90  /\ SetCtm(Ctm90(mediabox))
 ACtm180  == pc = "ctm" /\ rotate = 180 /\ SetCtm(Ctm180(mediabox))
 ACtm270  == pc = "ctm" /\ rotate = 270 /\ SetCtm(Ctm270(mediabox))
@@ -70,28 +91,30 @@ ACtmElse == pc = "ctm" /\ rotate \notin {90, 180, 270} /\ SetCtm(CtmElse(mediabo
 ABeginPage ==
   /\ pc = "begin"
   /\ bbox' = BeginBox(ctm, mediabox)
-  /\ pc' = "mark" /\ UNCHANGED <<mediabox, rotate, ctm, mpt, fired>> /\ InSame
+  /\ pc' = "mark" /\ UNCHANGED <<mediabox, cropbox, rotate, ctm, mpt, fired>> /\ InSame
 
 ARenderMark ==
   /\ pc = "mark"
   /\ mpt' = ApplyPt(ctm, pt)
-  /\ pc' = "done" /\ UNCHANGED <<mediabox, rotate, ctm, bbox, fired>> /\ InSame
+  /\ pc' = "done" /\ UNCHANGED <<mediabox, cropbox, rotate, ctm, bbox, fired>> /\ InSame
 
 Finished == pc = "done" /\ UNCHANGED vars
-Next == AParseBox \/ AParseRotate \/ ACtm90 \/ ACtm180 \/ ACtm270 \/ ACtmElse \/ ABeginPage \/ ARenderMark \/ Finished
+Next == AParseBox \/ AParseCrop \/ AParseRotate \/ ACtm90 \/ ACtm180 \/ ACtm270 \/ ACtmElse \/ ABeginPage \/ ARenderMark \/ Finished
 Spec == Init /\ [][Next]_vars
 
 \* ================================================================== the property (C04, geometry part)
 \* Rotate reduced to 0..359: the unique representative of its residue class
-RotateRange == (pc \notin {"box", "rotate"}) =>
+\* (a Rotate written as a real number is outside the standard: only the range is claimed for it)
+RefRot == RotNorm(rraw)
+RotateRange == (pc \notin {"box", "crop", "rotate"}) =>
                  /\ rotate \in 0..359
-                 /\ \E q \in -100..100 : rraw = rotate + 360 * q
+                 /\ "RealRotateIgnored" \notin fired => \E q \in -100..100 : rraw = rotate + 360 * q
 
 NB == Norm(boxw)
 W  == NB[3] - NB[1]
 H  == NB[4] - NB[2]
 Rel(p) == <<p[1] - NB[1], p[2] - NB[2]>>
-Quarter == rotate \div 90
+Quarter == RefRot \div 90
 Page == IF Quarter % 2 = 1 THEN <<0, 0, H, W>> ELSE <<0, 0, W, H>>
 
 \* the linear part a glyph matrix must show: the images of the unit vectors under the quarter turns
@@ -106,12 +129,21 @@ Lands ==
         ApplyPt(ctm, c) = Turn(Quarter, Rel(c), W, H)
   /\ mpt = Turn(Quarter, Rel(pt), W, H)
   /\ <<ctm[1], ctm[2], ctm[3], ctm[4]>> = RefLin
-Applies == pc = "done" /\ rotate % 90 = 0      \* Rotate "shall be a multiple of 90"; otherwise only RotateRange is claimed
-BoxLands == (Applies /\ fired = {}) => Lands
+Applies == pc = "done" /\ RefRot % 90 = 0      \* Rotate "shall be a multiple of 90"; otherwise only RotateRange is claimed
+BoxLands == (Applies /\ fired \subseteq {"CropNotClipped"}) => Lands
+
+\* ---- around the property (extended coverage; none of this is in C04's statement)
+\* the crop box: the MediaBox when absent; never reaching beyond the MediaBox (ISO 32000-1 14.11.2: a crop box that
+\* does is "effectively reduced to [its] intersection with the media box")
+RefCrop == IF cropw = <<>> THEN NB ELSE Intersect(Norm(cropw), NB)
+CropRef == (pc = "done" /\ fired \cap {"CropNotClipped", "BoxAsWritten"} = {}) => cropbox = RefCrop
+\* begin_page builds the page from the MediaBox alone: neither CropBox nor UserUnit enters the matrix or the page box
+PageFromMediaBox == pc = "done" => (ctm = CtmFor(rotate, mediabox) /\ bbox = BeginBox(ctm, mediabox))
 
 EmitTerminal ==
   pc = "done" => PrintT("@@" \o ToJson([boxw |-> boxw, rraw |-> rraw, pt |-> pt, mediabox |-> mediabox,
-                                        rotate |-> rotate, ctm |-> ctm, bbox |-> bbox, mpt |-> mpt,
+                                        rform |-> rform, uu |-> uu, cropw |-> cropw, cropbox |-> cropbox, refcrop |-> RefCrop,
+                                        refrot |-> RefRot, rotate |-> rotate, ctm |-> ctm, bbox |-> bbox, mpt |-> mpt,
                                         fired |-> fired, applies |-> Applies, lands |-> (Applies /\ Lands),
                                         page |-> Page, reflin |-> IF Applies THEN RefLin ELSE <<>>, refpt |-> IF Applies THEN Turn(Quarter, Rel(pt), W, H) ELSE <<>>]))
 =============================================================================
